@@ -136,7 +136,7 @@ func scribble(b []byte) {
 // newStream builds the cipher from private copies of key and IV. With
 // Scribble the copies are overwritten as soon as the constructor has returned:
 // the object must not depend on the caller's memory afterwards.
-func newStream(c streamCase) (gmcipher.SeekableStream, []byte, error) {
+func newStream(c streamCase, keep *keeper) (gmcipher.SeekableStream, []byte, error) {
 	spare := 0
 	if c.KeySpare {
 		spare = 24
@@ -165,6 +165,7 @@ func newStream(c streamCase) (gmcipher.SeekableStream, []byte, error) {
 		if c.Scribble {
 			scribble(iv)
 		}
+		keep.keep(iv, "the IV slice", false)
 	default:
 		modelIV = refEEA3IV(c.Count, c.Bearer, c.Dir)
 		if c.Bucket < 0 {
@@ -182,6 +183,7 @@ func newStream(c streamCase) (gmcipher.SeekableStream, []byte, error) {
 	if c.Scribble {
 		scribble(key)
 	}
+	keep.keep(key, "the key slice", false)
 	return s, modelIV, err
 }
 
@@ -252,7 +254,17 @@ func (c streamCase) plan() (plans []opPlan, maxEnd uint64) {
 
 func checkStream(c streamCase, r *h.Rec) error {
 	ls := &labelSet{r, map[string]bool{}}
-	s, iv, err := newStream(c)
+	// retain discipline: every buffer of every call stays alive (guard pages
+	// included) until the history is over and must keep the value it had when
+	// its call returned
+	var keep keeper
+	var frees []func()
+	defer func() {
+		for _, f := range frees {
+			f()
+		}
+	}()
+	s, iv, err := newStream(c, &keep)
 	if err != nil {
 		return fmt.Errorf("constructor failed for a valid key/IV: %v", err)
 	}
@@ -385,6 +397,9 @@ func checkStream(c streamCase, r *h.Rec) error {
 			if !panicked {
 				return fmt.Errorf("op %d of [%s]: the call did not panic (cipher.Stream: 'If len(dst) < len(src), XORKeyStream should panic'; partial overlap is forbidden)", i, c.history())
 			}
+			if err := keep.verify(fmt.Sprintf("during op %d (a failing call) of [%s]", i, c.history())); err != nil {
+				return err
+			}
 			afterFail = true
 			continue
 		}
@@ -422,15 +437,18 @@ func checkStream(c streamCase, r *h.Rec) error {
 				return b, noCheck, func() {}
 			}
 			src, srcOK, freeSrc := alloc(op.Len, 0)
-			defer freeSrc()
+			frees = append(frees, freeSrc)
 			copy(src, plain)
 			dst, dstOK := src, noCheck
 			if !op.InPlace {
 				var freeDst func()
 				dst, dstOK, freeDst = alloc(op.Len+op.Extra, 0xA5)
-				defer freeDst()
+				frees = append(frees, freeDst)
 			}
 			call(dst, src)
+			if err := keep.verify(fmt.Sprintf("during op %d of [%s]", i, c.history())); err != nil {
+				return err
+			}
 			for j := 0; j < op.Len; j++ {
 				if dst[j] != plain[j]^ks[start+uint64(j)] {
 					got := make([]byte, op.Len)
@@ -464,11 +482,18 @@ func checkStream(c streamCase, r *h.Rec) error {
 				scribble(src)
 				scribble(dst)
 			}
+			keep.keep(src, fmt.Sprintf("the src buffer of op %d", i), false)
+			if !op.InPlace {
+				keep.keep(dst, fmt.Sprintf("the dst buffer of op %d", i), false)
+			}
 			return nil
 		}(); err != nil {
 			return err
 		}
 		pos = end
+	}
+	if err := keep.verify(fmt.Sprintf("by the end of [%s]", c.history())); err != nil {
+		return err
 	}
 	r.NTIf(nt)
 	return nil
